@@ -5,4 +5,6 @@ from ..rules import treer
 def check(ctx, rep):
     treer.tree_1(ctx, rep)
     treer.tree_2(ctx, rep)
-    rep.note('Not decided: position lookup (binary search over positions).')
+    treer.tree_10(ctx, rep)
+    rep.note('Not decided: that the binary search of the position lookup selects the right child (comparisons over positions); '
+             'decided only: it returns what it located.')
